@@ -174,16 +174,21 @@ func (kc *Cache[V]) ForEach(k []byte, fn func(e Entry[V]) bool) {
 	kc.mu.RLock()
 	defer kc.mu.RUnlock()
 	d := Distance(kc.locus, k)
-	lz := LeadingZeros(d)
-	// everything in these buckets will have lz bits matching k.
-	for i := lz; i < len(kc.buckets); i++ {
-		if !kc.buckets[i].forEach(k, fn) {
-			return
+	// Entries in bucket i first differ from the locus at bit i. If k also differs
+	// from the locus at bit i, bucket i is nearer to k than every deeper bucket;
+	// otherwise it is farther than every deeper bucket.
+	var deferred []int
+	for i := range kc.buckets {
+		if i/8 < len(d) && d[i/8]&(0x80>>(i%8)) != 0 {
+			if !kc.buckets[i].forEach(k, fn) {
+				return
+			}
+		} else {
+			deferred = append(deferred, i)
 		}
 	}
-	// each bucket will have < lz bits matching k.
-	for i := min(lz-1, len(kc.buckets)-1); i >= 0; i-- {
-		if !kc.buckets[i].forEach(k, fn) {
+	for j := len(deferred) - 1; j >= 0; j-- {
+		if !kc.buckets[deferred[j]].forEach(k, fn) {
 			return
 		}
 	}
